@@ -249,8 +249,12 @@ func (w *world) receiveOne(c *contractDef, s *nom.AccountBlock) {
 	// what was really sent, fixed BEFORE the producer code runs (the receive path must not be able to change what the
 	// refund is compared with); after the run the send block is re-read from the ledger by hash
 	orig := snapSend(s)
+	stBefore, _ := w.storageDigest(c.Addr)
 	exec, err, pv := w.nd.AutoReceive(s)
 	d := blockDetail(s)
+	if c.Addr == types.AcceleratorContract && (pv != nil || err != nil || exec == nil) {
+		d["accelerator_projects"] = w.accSummary() // the stages of the projects the call met
+	}
 	if pv != nil {
 		// a panic of GenerateAutoReceive is a crash of the producing pillar, whoever sent the call
 		d["panic"] = fmt.Sprint(pv)
@@ -351,6 +355,10 @@ func (w *world) receiveOne(c *contractDef, s *nom.AccountBlock) {
 	if exec.ReturnedError != nil {
 		balAfter, _ := w.nd.Ch.GetFrontierAccountStore(c.Addr).GetBalance(s.TokenStandard)
 		out.Oracle(balBefore.Cmp(balAfter) == 0, "refund-leaves-balance-unchanged", d)
+		// "either applies the call or returns the amount": a refunded call leaves nothing behind in the contract's storage,
+		// also when its method had written before it failed (the receive block of the refund is on the ledger now)
+		stAfter, _ := w.storageDigest(c.Addr)
+		out.Oracle(stBefore == stAfter, "refund-leaves-storage-unchanged", d)
 	}
 	w.pending--
 }
@@ -803,6 +811,10 @@ func callsHistory(rng *rand.Rand, out *Out, regime string, steps int, focus bool
 				out.Count("method-available:" + regime + ":" + c.Name + "." + mn)
 			}
 		}
+	}
+	if w.accelAvailable() {
+		w.accelPeriods()
+		defer resetAccelConstants()
 	}
 	deepShare := 1 // of 16 steps
 	if focus {
